@@ -84,6 +84,30 @@ def _s6(program, res):
     c16.paired_field_rewrite(program, Relabel(res, {"*": "C01-S6"}))
 
 
+def comparison_null_rule(program, res, dialect_mod="SQLite", dialect_cls="SQLiteModel", rule="C01-S7"):
+    """comparisons: Pandas evaluates them with numpy (never missing: False / True on a missing operand); a bare SQL comparison operator is
+    three-valued (NULL on a NULL operand).  Unless the dialect wraps the operator (a formatter that coalesces), the two differ: the column holds
+    NULL instead of False, and select_rows('not (x > 2)') keeps the null row on Pandas and drops it in SQL"""
+    from .. import facts
+    d = sqlexpr.Dialect(program, dialect_mod, dialect_cls)
+    for op, on_null in sorted(facts.PANDAS_COMPARISON_ON_NULL.items()):
+        kind, info = d.resolve(op)
+        if kind == "default" and info in facts.SQL_INLINE_OPERATORS:
+            res.fail(rule, f"sql_model:SQLModel.expr_to_sql", f"comparison-null:{op}",
+                     f"{dialect_cls}: `x {op} y` is emitted as the bare operator `{info}`; with a missing operand SQL yields NULL where Pandas yields {on_null} "
+                     f"(x=[1,None,3], y=[1,2,None]: Pandas {[True, on_null, on_null] if op in ('==', '<=', '>=') else [False, on_null, on_null]}, SQL [.., NULL, NULL])",
+                     "data_algebra/sql_model.py", 0)
+        elif kind == "formatter":
+            fn = d.formatter_func(info)
+            txt = unparse(fn) if fn is not None else ""
+            if "COALESCE" in txt.upper() or "IS NULL" in txt.upper():
+                res.ok(rule, f"{dialect_cls}: `{op}` goes through a formatter that handles NULL operands")
+            else:
+                res.abstain(rule, f"{dialect_cls}: `{op}` formatter", "null behaviour of the template not decided")
+        else:
+            res.abstain(rule, f"{dialect_cls}: `{op}`", f"emitted as {info}(...)")
+
+
 def run(program, res, tier):
     res.rule("C01-S1", "node-kind dispatch is exhaustive in the Pandas, Polars and SQL back ends")
     res.rule("C01-S2", "SQL pruning derives from the node's own columns_used_from_sources")
@@ -107,4 +131,9 @@ def run(program, res, tier):
     c05._sql_s1(program, r5, d, rows, registered, tmeth)
     c05._s2(program, r5, [d])
     _s6(program, res)
+    res.rule("C01-S7", "comparison operators agree with Pandas on missing operands")
+    comparison_null_rule(program, res)
+    res.rule("C01-S8", "missing values are ordered where Pandas puts them")
+    from . import c18
+    c18.null_position_rule(program, res, ["SQLiteModel"], rule="C01-S8")
     res.assumptions.append("SQLite built-in function list, meaning vocabulary and registration meanings (sa/facts.py)")
